@@ -215,11 +215,29 @@ func wgLocalInvariants(wg *graph.WeightedAuthorizationModelGraph) []string {
 				diffs = append(diffs, fmt.Sprintf("node %s: GetWeight(%s) disagrees with GetWeights", n.GetLabel(), k))
 			}
 		}
+		if _, ok := n.GetWeight("\x00no-such-type"); ok {
+			diffs = append(diffs, fmt.Sprintf("node %s: GetWeight reports a weight for a type that is not in GetWeights", n.GetLabel()))
+		}
+		if es, ok := wg.GetEdgesFromNode(n); ok != (wg.GetEdges()[id] != nil) || len(es) != len(wg.GetEdges()[id]) {
+			diffs = append(diffs, fmt.Sprintf("node %s: GetEdgesFromNode disagrees with GetEdges", n.GetLabel()))
+		} else {
+			for i := range es {
+				if es[i] != wg.GetEdges()[id][i] {
+					diffs = append(diffs, fmt.Sprintf("node %s: GetEdgesFromNode[%d] is not GetEdges[%d]", n.GetLabel(), i, i))
+				}
+			}
+		}
 		for _, e := range wg.GetEdges()[id] {
-			for k := range e.GetWeights() {
+			for k, v := range e.GetWeights() {
 				if strings.HasPrefix(k, "R#") {
 					diffs = append(diffs, fmt.Sprintf("edge %s->%s exposes cycle placeholder %s", n.GetLabel(), e.GetTo().GetLabel(), k))
 				}
+				if w2, ok := e.GetWeight(k); !ok || w2 != v {
+					diffs = append(diffs, fmt.Sprintf("edge %s->%s: GetWeight(%s) disagrees with GetWeights", n.GetLabel(), e.GetTo().GetLabel(), k))
+				}
+			}
+			if _, ok := e.GetWeight("\x00no-such-type"); ok {
+				diffs = append(diffs, fmt.Sprintf("edge %s->%s: GetWeight reports a weight for a type that is not in GetWeights", n.GetLabel(), e.GetTo().GetLabel()))
 			}
 			to := e.GetTo()
 			want := map[string]int{}
